@@ -1,7 +1,7 @@
 (* Property C13 -- theorems only. *)
 From Coq Require Import Reals List.
 From NV Require Import Base.RealExtra Gen.ModelFuncs Model.Wrapper Proofs.ScalingP Proofs.WrapperP
-     Proofs.WeightsP.
+     Proofs.WeightsP Proofs.MonotoneP.
 Import ListNotations.
 Local Open Scope R_scope.
 
@@ -86,10 +86,9 @@ Proof.
   - exact modulus_clifford.
 Qed.
 
-(* force non-decreasing with indentation depth (d2 <= d1 is the deeper point)
-   -- proved for the three power laws; for the sphere series (depths <= R) and
-   the layered model the statement is explored numerically only, see
-   DESIGN.md (C13_monotone_*_partial) *)
+(* force non-decreasing with indentation depth (d2 <= d1 is the deeper point):
+   the three power laws here, the sphere series (depths up to R) and the layered
+   model in C13_monotone_series_and_layered below *)
 Theorem C13_monotone_powerlaws :
   (forall E R nu cp bl d1 d2, 0 <= E -> 0 < 1 - nu ^ 2 -> d2 <= d1 ->
      m_hertz_para E R nu cp bl d1 <= m_hertz_para E R nu cp bl d2) /\
@@ -102,6 +101,23 @@ Proof.
   - exact monotone_para.
   - exact monotone_cone.
   - exact monotone_pyr.
+Qed.
+
+(* the truncated sphere series, for indentation depths up to the tip radius (beyond it the
+   polynomial is not claimed), and the layered model for every depth.  Guards as the code
+   has them: E_S > 0 (the code divides by it), t > 0, Poisson ratios within the parameter
+   bounds [0, 0.5] make both Poisson factors positive. *)
+Theorem C13_monotone_series_and_layered :
+  (forall E R nu cp bl d1 d2, 0 <= E -> 0 < 1 - nu ^ 2 -> 0 < R -> d2 <= d1 -> cp - d2 <= R ->
+     m_sneddon_spher_approx E R nu cp bl d1 <= m_sneddon_spher_approx E R nu cp bl d2) /\
+  (forall ES EL R nuS nuL t cp bl d1 d2, 0 < ES -> 0 <= EL -> 0 < t ->
+     0 <= nuS <= 1 / 2 -> 0 <= nuL <= 1 / 2 -> d2 <= d1 ->
+     m_power_layer_clifford_2009 ES EL R nuS nuL t cp bl d1
+     <= m_power_layer_clifford_2009 ES EL R nuS nuL t cp bl d2).
+Proof.
+  split.
+  - exact monotone_sneddon.
+  - exact monotone_clifford_bounds.
 Qed.
 
 (* continuity at contact with an explicit modulus (power laws) *)
@@ -119,6 +135,22 @@ Proof.
   - exact contact_para.
   - exact contact_cone.
   - exact contact_pyr.
+Qed.
+
+(* ... and for the sphere series (depth up to min(R, 1)) and the layered model (the Hertz
+   law of the stiffer material bounds the force) *)
+Theorem C13_continuous_at_contact_series_and_layered :
+  (forall E R nu cp bl d, 0 < R -> 0 <= cp - d <= 1 -> cp - d <= R ->
+     Rabs (m_sneddon_spher_approx E R nu cp bl d - bl)
+     <= Rabs (4 / 3 * E / (1 - nu ^ 2) * sqrt R) * (cp - d)) /\
+  (forall ES EL R nuS nuL t cp bl d, 0 < ES -> 0 <= EL -> 0 < t ->
+     0 <= nuS <= 1 / 2 -> 0 <= nuL <= 1 / 2 -> 0 <= cp - d <= 1 ->
+     Rabs (m_power_layer_clifford_2009 ES EL R nuS nuL t cp bl d - bl)
+     <= 4 / 3 * sqrt R * Rmax ES EL * (cp - d)).
+Proof.
+  split.
+  - exact contact_sneddon.
+  - exact contact_clifford_bounds.
 Qed.
 
 (* default residual = (data - model) * contact-point weights *)
